@@ -111,8 +111,7 @@ func (e *Engine) abstractHandle(st *State, t types.Type, name string) (Value, bo
 		return VAbs{Kind: "pool", ID: e.nextID(), Data: name}, true
 	case typeIsPkg(t, "sync", "Mutex"):
 		if _, isPtr := t.(*types.Pointer); isPtr {
-			cell := e.newCell(st, VStruct{})
-			e.cellNames[cell] = name
+			cell := e.namedCell(st, name, VStruct{})
 			return VPtr{Cell: cell}, true
 		}
 		return VStruct{}, true
@@ -132,10 +131,20 @@ func (e *Engine) abstractHandle(st *State, t types.Type, name string) (Value, bo
 			return VAbs{Kind: "list", ID: cell}, true
 		}
 	case typeIsPkg(t, "sync", "Cond"):
-		if _, isPtr := t.(*types.Pointer); isPtr {
-			lcell := e.newCell(st, VStruct{})
-			e.cellNames[lcell] = name + ".L"
-			return VAbs{Kind: "cond", ID: e.nextID(), Data: VPtr{Cell: lcell}}, true
+		if pt, isPtr := t.(*types.Pointer); isPtr {
+			// *sync.Cond: a struct cell whose L field is a *sync.Mutex with its own identity
+			lcell := e.namedCell(st, name+".L", VStruct{})
+			stt := pt.Elem().Underlying().(*types.Struct)
+			fs := make([]Value, stt.NumFields())
+			for i := range fs {
+				if stt.Field(i).Name() == "L" {
+					fs[i] = VIface{Typ: types.NewPointer(e.syncMutexType()), V: VPtr{Cell: lcell}}
+				} else {
+					fs[i] = VStruct{}
+				}
+			}
+			cell := e.namedCell(st, name, VStruct{fs})
+			return VPtr{Cell: cell}, true
 		}
 	case typeIsPkg(t, "context", "Context"):
 		return VAbs{Kind: "ctx", ID: e.nextID()}, true
@@ -154,6 +163,21 @@ type ListObj struct {
 	Seq  Term // (Array Int FeedEv): index 0 = back (oldest) ... Len-1 = front (newest)
 	Len  Term
 	NilT Term
+}
+
+// namedCell returns the heap cell of an input object identified by its access path (same cell in every state).
+func (e *Engine) namedCell(st *State, name string, init Value) int {
+	cell, ok := e.lazyCells[name]
+	if !ok {
+		e.nextCell++
+		cell = e.nextCell
+		e.lazyCells[name] = cell
+		e.cellNames[cell] = name
+	}
+	if _, present := st.heap[cell]; !present {
+		st.heap[cell] = init
+	}
+	return cell
 }
 
 func (e *Engine) ptrName(p VPtr) string {
@@ -245,8 +269,37 @@ func (e *Engine) lockName(st *State, v Value) string {
 }
 
 func newCond(e *Engine, st *State, args []Value, depth int, pos string, k func(*State, Value)) {
-	k(st, VAbs{Kind: "cond", ID: e.nextID(), Data: args[0]})
+	t := e.syncCondType()
+	if t == nil {
+		k(st, VAbs{Kind: "cond", ID: e.nextID(), Data: args[0]})
+		return
+	}
+	stt := t.Underlying().(*types.Struct)
+	fs := make([]Value, stt.NumFields())
+	for i := range fs {
+		if stt.Field(i).Name() == "L" {
+			fs[i] = args[0]
+		} else {
+			fs[i] = VStruct{}
+		}
+	}
+	cell := e.newCell(st, VStruct{fs})
+	k(st, VPtr{Cell: cell})
 }
+
+func (e *Engine) syncType(name string) types.Type {
+	for _, p := range e.prog.AllPackages() {
+		if p.Pkg.Path() == "sync" {
+			if tn := p.Pkg.Scope().Lookup(name); tn != nil {
+				return tn.Type()
+			}
+		}
+	}
+	return nil
+}
+
+func (e *Engine) syncMutexType() types.Type { return e.syncType("Mutex") }
+func (e *Engine) syncCondType() types.Type  { return e.syncType("Cond") }
 
 func condBroadcast(e *Engine, st *State, args []Value, depth int, pos string, k func(*State, Value)) {
 	st.addTrace(TraceEv{Kind: "broadcast", Pos: pos})
@@ -254,8 +307,16 @@ func condBroadcast(e *Engine, st *State, args []Value, depth int, pos string, k 
 }
 
 func condWait(e *Engine, st *State, args []Value, depth int, pos string, k func(*State, Value)) {
-	// Wait releases and re-acquires the lock; the queue content is havocked by the caller's loop rule.
+	// Wait releases and re-acquires the lock: everything guarded by it may have changed. The lists modelled in the
+	// heap are havocked here; nil-ness of list fields is havocked by the loop rule (`loop N havoc` directive).
 	st.addTrace(TraceEv{Kind: "condwait", Pos: pos})
+	for cell, v := range st.heap {
+		if l, ok := v.(*ListObj); ok {
+			ln := e.fresh(st, "list.len", SInt)
+			st.assume(Ge(ln, IntLit(0)))
+			st.heap[cell] = &ListObj{Seq: e.fresh(st, "list.seq", SEvSeq), Len: ln, NilT: l.NilT}
+		}
+	}
 	k(st, nil)
 }
 
@@ -687,6 +748,7 @@ func listBack(e *Engine, st *State, args []Value, depth int, pos string, k func(
 		return
 	}
 	// Back() of an empty list is nil
+	st.addTrace(TraceEv{Kind: "list.back", Pos: pos})
 	ev := App(SFeedEv, "select", l.Seq, IntLit(0))
 	k(st, VAbs{Kind: "listelem", ID: e.nextID(), Data: ev, })
 }
